@@ -307,6 +307,26 @@ def eval_case(kind, data):
                     ops.add(f"negative-generable:{gable}")
                     if gable:
                         viol(res, "C15|negative-weight-generable", f"{neg!r} reports generable", {"text": neg})
+                    # history: the VALID twin generates first (whatever it leaves behind), then every entry point is tried
+                    # on the negative-weight twin: molecule generation and the direct construction of a MolGen from a token
+                    run_limited(lambda: gbigsmiles.Molecule(b).generate(rng=np.random.default_rng(2)).smiles, (), 20)
+                    got, det = attempt(neg)
+                    res["transitions"] += 2
+                    ops.add(f"negative-after-valid:{got}")
+                    if got == "molecule":
+                        viol(res, "C15|accepted|negative-weight-generates-after-valid-twin", f"{neg!r} generates {det} after its valid twin {b!r} had generated", {"text": neg, "base": b})
+                    toks = []
+                    for el in o.elements:
+                        toks += list(getattr(el, "repeat_tokens", [])) + list(getattr(el, "end_tokens", [])) + ([el] if isinstance(el, gbigsmiles.SmilesToken) else [])
+                    for tk in toks:
+                        if any(float(bd.weight) < 0 for bd in tk.bond_descriptors):
+                            from gbigsmiles.mol_gen import MolGen
+
+                            stt, mg_ = run_limited(lambda: MolGen(tk), (), 20)
+                            res["transitions"] += 1
+                            ops.add(f"molgen-negative:{stt}")
+                            if stt == "ok":
+                                viol(res, "C15|accepted|molgen-from-negative-weight-token", f"MolGen(token {str(tk)!r}) is built although the token is not generable (after the valid twin {b!r} had generated)", {"text": neg, "base": b})
         # element-level misuse, also on mirrored molecules (history: parse -> mirror -> generate an element)
         for b in data["bases"]:
             try:
